@@ -172,6 +172,78 @@ def serialTowardsRoeFull (r : R2) (shapeH : Int) (pixels : Int × Int) : Option 
   let x := serialXFrontRange r pixels
   region2dNew ⟨0, shapeH, x.1, x.2⟩
 
+/-! ### Layout2D (autoarray/layout/layout.py): three optional regions + shape + roe corner -/
+
+/-- `Layout2D`: `shape_2d`, `original_roe_corner`, and the three optional `Region2D`s -/
+structure Layout2D where
+  h : Nat
+  w : Nat
+  roe : Corner
+  parallelOverscan : Option R2
+  serialPrescan : Option R2
+  serialOverscan : Option R2
+deriving Repr, DecidableEq
+
+/-- a region argument that may be `None`: `None` stays `None`, a tuple goes through `f`
+    (`none` = `f` raised) -/
+def optRegion (f : R2 → Option R2) : Option R2 → Option (Option R2)
+  | none => some none
+  | some r => (f r).map some
+
+/-- `Layout2D.__init__` with tuple (or `None`) regions: each tuple is validated by `Region2D`. -/
+def layoutNew (h w : Nat) (roe : Corner) (po sp so : Option R2) : Option Layout2D :=
+  (optRegion region2dNew po).bind fun po' =>
+  (optRegion region2dNew sp).bind fun sp' =>
+  (optRegion region2dNew so).bind fun so' =>
+  some ⟨h, w, roe, po', sp', so'⟩
+
+/-- `Layout2D.rotated_from_roe_corner(roe_corner, shape_native, …)`: every region is rotated with
+    `shape_native` and `roe_corner`; the layout records `roe_corner` and `shape_native`. -/
+def layoutRotatedFromRoeCorner (c : Corner) (h w : Nat) (po sp so : Option R2) : Option Layout2D :=
+  (optRegion (fun r => rotateRegion r h w c) po).bind fun po' =>
+  (optRegion (fun r => rotateRegion r h w c) sp).bind fun sp' =>
+  (optRegion (fun r => rotateRegion r h w c) so).bind fun so' =>
+  some ⟨h, w, c, po', sp', so'⟩
+
+/-- `Layout2D.new_rotated_from(roe_corner)`: every region rotated with `self.shape_2d`; the new
+    layout records `roe_corner` and keeps `shape_2d`. -/
+def Layout2D.newRotatedFrom (l : Layout2D) (c : Corner) : Option Layout2D :=
+  layoutRotatedFromRoeCorner c l.h l.w l.parallelOverscan l.serialPrescan l.serialOverscan
+
+/-- `region_after_extraction` on a possibly-`None` region: `None` → `None`; outer `none` = raised -/
+def optAfterExtraction (e : R2) : Option R2 → Option (Option R2)
+  | none => some none
+  | some o =>
+    match regionAfterExtraction o e with
+    | .value r => some (some r)
+    | .absent => some none
+    | .raised => none
+
+/-- `Layout2D.layout_extracted_from(extraction_region)`: every region goes through
+    `region_after_extraction`; `original_roe_corner` and `shape_2d` are kept as they are. -/
+def Layout2D.extractedFrom (l : Layout2D) (e : R2) : Option Layout2D :=
+  (optAfterExtraction e l.parallelOverscan).bind fun po' =>
+  (optAfterExtraction e l.serialPrescan).bind fun sp' =>
+  (optAfterExtraction e l.serialOverscan).bind fun so' =>
+  some ⟨l.h, l.w, l.roe, po', sp', so'⟩
+
+/-- `Layout2D.original_orientation_from(array)` -/
+def Layout2D.originalOrientationFrom (l : Layout2D) (a : List (List α)) : List (List α) :=
+  rotateArray l.roe a
+
+/-- `Array2D.original_orientation` (header corner `c`): the native array rotated for `c` -/
+def arrayOriginalOrientation (c : Corner) (native : List (List α)) : List (List α) :=
+  rotateArray c native
+
+/-- `Layout2D.extract_parallel_overscan_array_2d_from(array)` = `array.native[parallel_overscan.slice]`
+    (`none`: the region is `None`, the Python fails with `AttributeError`) -/
+def Layout2D.extractParallelOverscan (l : Layout2D) (a : List (List α)) : Option (List (List α)) :=
+  l.parallelOverscan.map fun r => slice2d r a
+
+/-- `Layout2D.extract_serial_overscan_array_from(array)` -/
+def Layout2D.extractSerialOverscan (l : Layout2D) (a : List (List α)) : Option (List (List α)) :=
+  l.serialOverscan.map fun r => slice2d r a
+
 end Impl
 
 /-! ## Spec layer -/
@@ -195,6 +267,38 @@ def overlap1d (x0o x1o x0e x1e : Int) : Option (Int × Int) :=
 /-- the overlap of region and window in array coordinates (meaningful when both 1-D overlaps exist) -/
 def overlapRegion (o e : R2) : R2 :=
   ⟨max o.y0 e.y0, min o.y1 e.y1, max o.x0 e.x0, min o.x1 e.x1⟩
+
+/-- relation between a (possibly absent) region of a layout and its image in the rotated layout,
+    seen on an `h×w` array `a`: absent stays absent; a present region becomes a valid region inside
+    the array that slices from the rotated array the rotated content of the original region. -/
+def RegionRotated (c : Corner) (h w : Nat) (a : List (List α)) : Option R2 → Option R2 → Prop
+  | none, none => True
+  | some r, some r' =>
+    R2.Inside r' h w ∧ Impl.slice2d r' (Impl.rotateArray c a) = Impl.rotateArray c (Impl.slice2d r a)
+  | _, _ => False
+
+/-- relation between a (possibly absent) region of a layout and its image in the layout extracted
+    for window `e`: absent stays absent; a present region is absent afterwards iff it does not
+    overlap the window, and otherwise is the overlap in window coordinates, addressing inside the
+    extracted window exactly the overlap's content (for every array). -/
+def RegionExtracted (e : R2) : Option R2 → Option R2 → Prop
+  | none, none => True
+  | some o, none => ¬(max o.y0 e.y0 < min o.y1 e.y1 ∧ max o.x0 e.x0 < min o.x1 e.x1)
+  | some o, some r' =>
+    (max o.y0 e.y0 < min o.y1 e.y1 ∧ max o.x0 e.x0 < min o.x1 e.x1)
+    ∧ r' = ⟨max o.y0 e.y0 - e.y0, min o.y1 e.y1 - e.y0, max o.x0 e.x0 - e.x0, min o.x1 e.x1 - e.x0⟩
+    ∧ ∀ (β : Type) (a : List (List β)),
+        Impl.slice2d r' (Impl.slice2d e a) = Impl.slice2d (overlapRegion o e) a
+  | none, some _ => False
+
+/-- every present region of a layout lies inside its `h×w` frame -/
+def OptInside (h w : Nat) : Option R2 → Prop
+  | none => True
+  | some r => R2.Inside r h w
+
+def OptValid : Option R2 → Prop
+  | none => True
+  | some r => R2.Valid r
 
 end Spec
 end Model
